@@ -149,7 +149,9 @@ def gen_custom(rnd, fudge):
             u, v = rnd.sample(names, 2)
             if [u, v] not in edges and [v, u] not in edges:
                 edges.append([u, v])
-        ffdesc['blocks'][rn] = {'names': names, 'edges': edges}
+        # node keys of a block are opaque: atom names (hand-built blocks), integers (blocks read from an .itp) or anything else
+        keying = rnd.choice(['names', 'ints', 'ints-shuffled', 'names-rotated'])
+        ffdesc['blocks'][rn] = {'names': names, 'edges': edges, 'keying': keying, 'kseed': rnd.randrange(10 ** 6)}
     atoms = []
     tag = 0
     box = rnd.choice([0.4, 0.7, 1.5])
@@ -191,10 +193,22 @@ def case_ff(case):
     for rn, b_ in case['ff']['blocks'].items():
         blk = Block(force_field=f)
         blk.name = rn
-        for nm in b_['names']:
-            blk.add_atom({'atomname': nm, 'resname': rn, 'resid': 1, 'atype': 'x', 'charge_group': 1})
+        names = b_['names']
+        keying = b_.get('keying', 'names')
+        if keying == 'ints':
+            keys = list(range(len(names)))
+        elif keying == 'ints-shuffled':
+            import random
+            keys = random.Random(b_['kseed']).sample(range(1, 3 * len(names) + 1), len(names))
+        elif keying == 'names-rotated':
+            keys = names[1:] + names[:1]        # every key is the atom name of ANOTHER atom of the block
+        else:
+            keys = list(names)
+        key = dict(zip(names, keys))
+        for nm in names:
+            blk.add_node(key[nm], atomname=nm, resname=rn, resid=1, atype='x', charge_group=1)
         for u, v in b_['edges']:
-            blk.add_edge(u, v)
+            blk.add_edge(key[u], key[v])
         f.blocks[rn] = blk
     return f
 
